@@ -3,7 +3,9 @@
 1. TLC model-checks spec/LogitsStore.tla over every pair of bounded layouts (A: <= 2-3 lines with ids from {x, y, z}, every
    component present / absent / [None, None]; B: every sequence of ids with older values) and every operation sequence up
    to MaxOps of Save(file|bytes, missing ok or not) / SaveLegacy / Load(file|bytes) / Dense: invariants InvRestore,
-   InvRestoreLegacy, InvReports, InvDense, InvUnique.
+   InvRestoreLegacy, InvReports, InvDense, InvEdit, InvUnique.  Round 9: Rescale (stored logits edited in place by the caller) and
+   Scribble (arrays handed out by earlier Dense calls modified in place) as environment actions; the file path of Save / Load
+   is spelled in four ways (absolute, bare name in the working directory, relative with a directory part, ./name).
 2. For every pair of layouts (same JSON file feeds TLC's Init and the driver) operation sequences covering every action are
    replayed on real PageLayout objects holding real scipy sparse matrices (seeded shapes / sparsity / dtype, no stored 0.0),
    character tables and frame windows; after each call both layouts and the content of the written slot (read back with
@@ -33,6 +35,23 @@ PLANS = [
      ["Load", "B", "bytes", False, 0, 0], ["Dense", "B", "file", False, 1, 20]],
 ]
 MAXOPS = 8
+# round 9: histories on one long-lived line with the caller's in-place edits in between - query, modify the returned arrays,
+# query again; alternating floor values; stored logits rescaled in place (line.logits *= f / line.logits.data *= f), query
+# again; then the edited layout is saved and loaded and queried again.  Rescale: fl = 0 `logits *= f`, fl = 1 `logits.data *= f`.
+PLAN_HIST = [
+    ["Dense", "B", "file", False, 1, 80], ["Scribble", "B", "file", False, 1, 0], ["Dense", "B", "file", False, 1, 80],
+    ["Dense", "B", "file", False, 1, 20], ["Dense", "B", "file", False, 1, 80],
+    ["Rescale", "B", "file", False, 1, 0], ["Dense", "B", "file", False, 1, 80],
+    ["Dense", "A", "file", False, 1, 20], ["Rescale", "A", "file", False, 1, 1], ["Dense", "A", "file", False, 1, 20],
+    ["Save", "A", "file", False, 0, 0], ["Save", "A", "bytes", True, 0, 0], ["Load", "B", "file", False, 0, 0],
+    ["Dense", "B", "file", False, 1, 80], ["Scribble", "B", "file", False, 1, 0], ["Rescale", "B", "file", False, 1, 1],
+    ["Dense", "B", "file", False, 1, 80], ["Load", "B", "bytes", False, 0, 0], ["Dense", "B", "file", False, 1, 80],
+    ["Scribble", "A", "file", False, 1, 0], ["Rescale", "A", "file", False, 1, 0], ["Dense", "A", "file", False, 1, 20],
+    ["Dense", "B", "file", False, 2, 20], ["Scribble", "B", "file", False, 2, 0], ["Dense", "B", "file", False, 2, 20],
+]
+# round 9: [spelling of the file path in save_logits, in load_logits] - absolute / bare name in the working directory / relative
+# with a directory part / "./name" (scope sentence: "file path ... variants")
+PV_PAIRS = [["abs", "abs"], ["bare", "bare"], ["rel", "rel"], ["dot", "dot"], ["bare", "abs"], ["abs", "bare"], ["rel", "bare"]]
 
 
 def _old(seq, no_logits=()):
@@ -65,21 +84,23 @@ def mc_files(ctx, name, la, lb, u, root):
 
 
 def consts(dirs, maxops):
-    c = {"InitA": "<-MCInitA", "InitB": "<-MCInitB", "Mats": "<-MCMats", "Floors": {80, 20}, "MaxOps": maxops, "ObsToks": set()}
+    c = {"InitA": "<-MCInitA", "InitB": "<-MCInitB", "Mats": "<-MCMats", "Floors": {80, 20}, "MaxOps": maxops, "ObsToks": set(),
+         "EditOn": set()}
     c.update(dirs)
     return c
 
 
 ONE_WAY = {"SaveFrom": {"A"}, "LoadInto": {"B"}, "DenseOn": set()}
 BOTH = {"SaveFrom": {"A", "B"}, "LoadInto": {"A", "B"}, "DenseOn": {"A", "B"}}       # (unused by the trace layer)
-INVS = ["InvRestore", "InvRestoreLegacy", "InvReports", "InvDense", "InvFunctional", "InvUnique"]
+INVS = ["InvRestore", "InvRestoreLegacy", "InvReports", "InvDense", "InvEdit", "InvFunctional", "InvUnique"]
 
 
 def design(ctx, name, la, lb, u, dirs, maxops, workers=4):
     return ctx.tlc("MC_LogitsStore", constants=consts(dirs, maxops), invariants=INVS,
                    files=mc_files(ctx, name, la, lb, u, "LogitsStore"), workers=workers, timeout=3000, jvm_mem="8g",
                    label="LogitsStore %s (%d x %d layouts, MaxOps=%d, %s)" % (
-                       name, len(la), len(lb), maxops, "Save A; Load B" if dirs is ONE_WAY else "all calls on both layouts"))
+                       name, len(la), len(lb), maxops, "Save A; Load B" if dirs is ONE_WAY else
+                       "in-place edits by the caller" if dirs.get("EditOn") else "all calls on both layouts"))
 
 
 def execute(ctx, cases):
@@ -117,9 +138,17 @@ def judge(ctx, name, cases, traces, u):
             ev = tr["events"][prog]
             sig = "%s%s" % (ev["op"].lower() if ev["op"] != "Observe" else "rebuilt-output:" + ev["k"],
                             ":raised" if (ev["status"] == "error" and ev["op"] != "Save") else "")
+            if ev["status"] == "error" and ev.get("pv", "abs") != "abs":
+                sig = "%s:path=%s" % (ev["op"].lower(), ev["pv"])
             what = ("call %d %s(%s, %s%s) is not a %s step of LogitsStore: status=%s %s; layouts after the call A=%s B=%s; slot=%s" % (
                 prog + 1, ev["op"], ev["L"], ev["k"], ", missing_ok=%s" % ev["ok"] if ev["op"] == "Save" else "", ev["op"],
                 ev["status"], ev.get("error", ""), ev["A"], ev["B"], ev["ents"]))
+            if "pv" in ev:
+                what += "; file path spelled %r (%s)" % (ev["pv"], L.PV_DOC.get(ev["pv"], ""))
+            if ev["op"] == "Dense":
+                what += "; calls on this line so far: %s; dense=%s lse=%s shift=%s" % (
+                    [(e["op"], e["fl"]) for e in tr["events"][:prog] if e["L"] == ev["L"] and e["i"] in (ev["i"], 0)],
+                    ev["obs"], ev["lse"], ev["shift"])
             if ev["op"] == "Observe":
                 what = ("the %s output of layout %s%s differs from the output observed earlier for the same line ids / logits / "
                         "characters / windows (original vs rebuilt from PAGE XML + saved logits): %s" % (
@@ -159,12 +188,34 @@ def random_ops(rng, n):
     return ops
 
 
+def random_hist_ops(rng, n):
+    """round 9: Dense-heavy sequences with the caller's in-place edits and Save / Load in between"""
+    ops = []
+    for _ in range(n):
+        r = rng.random()
+        lay = rng.choice(["A", "B"])
+        i = rng.randint(1, 2)
+        if r < 0.4:
+            ops.append(["Dense", lay, "file", False, i, rng.choice([80, 80, 20])])
+        elif r < 0.55:
+            ops.append(["Scribble", lay, "file", False, i, 0])
+        elif r < 0.72:
+            ops.append(["Rescale", lay, "file", False, i, rng.randint(0, 1)])
+        elif r < 0.86:
+            ops.append(["Save", lay, rng.choice(["file", "bytes"]), rng.random() < 0.7, 0, 0])
+        else:
+            ops.append(["Load", lay, rng.choice(["file", "bytes"]), False, 0, 0])
+    return ops
+
+
 def run(ctx):
     u = L.make_universe(ctx.seed)
     ctx.rule = ("every pair (A, B) of bounded layouts (A: <= 2 lines [thorough: 3] with ids from {x,y,z}, each of logits / characters "
                 "/ window present or None, window also [None, None]; B: sequences of <= 3 ids carrying older values) x operation "
-                "sequences covering Save(file|bytes, missing ok|not) / legacy file / Load(file|bytes) / Dense; non-trivial = A "
-                "and B share a line id and a Load was executed")
+                "sequences covering Save(file|bytes, missing ok|not) / legacy file / Load(file|bytes) / Dense; the file path is "
+                "spelled absolute / bare name in the working directory / relative with a directory part / ./name; histories on "
+                "long-lived lines with the caller's in-place edits between the calls (returned arrays modified, stored logits "
+                "rescaled in place, alternating floors); non-trivial = A and B share a line id and a Load was executed")
     ctx.exhaustive = True
     ctx.assume("line ids are unique within a layout and differ from the reserved keys 'line_characters' / 'logit_coords'",
                "sparse matrices hold no stored 0.0 (stated in the property); logits are multiples of 1/8 in [-5, 5]",
@@ -172,9 +223,14 @@ def run(ctx):
     first = True
     for name, (la, lb) in spaces(ctx).items():
         design(ctx, name, la, lb, u, ONE_WAY, 2)       # every Save ; Load (Dense is explored in the small-both config)
-        cases = [{"A": a, "B": b, "ops": PLANS[(i + j) % 2] if ctx.tier == "quick" else plan, "universe": u}
+        cases = [{"A": a, "B": b, "ops": PLANS[(i + j) % 2] if ctx.tier == "quick" else plan, "universe": u,
+                  "pv": PV_PAIRS[(2 * i + j + p) % len(PV_PAIRS)]}
                  for i, a in enumerate(la) for j, b in enumerate(lb)
-                 for plan in ([None] if ctx.tier == "quick" else PLANS)]
+                 for p, plan in enumerate([None] if ctx.tier == "quick" else PLANS)]
+        # round 9: histories with in-place edits by the caller on a sub-sample of the pairs
+        step = 5 if ctx.tier == "quick" else 4
+        cases += [{"A": a, "B": b, "ops": PLAN_HIST, "universe": u, "pv": PV_PAIRS[(i + 3 * j) % len(PV_PAIRS)]}
+                  for i, a in enumerate(la) for j, b in enumerate(lb) if (i + j) % step == 0]
         traces = execute(ctx, cases)
         acc, rej = judge(ctx, name, cases, traces, u)
         if first and not rej:
@@ -197,11 +253,24 @@ def run(ctx):
     design(ctx, "small-both", sa, sb, u, dict(full, ObsToks=({1} if ctx.tier == "quick" else {1, 2})), 3)
     if ctx.tier == "thorough":
         design(ctx, "small-both-deep", sa[::9], sb[::2], u, dict(full, ObsToks={1}), 4)
+    # round 9: Save / Load / Dense together with the caller's in-place edits (Rescale, Scribble): a few small layouts, every
+    # sequence of <= MaxOps calls
+    hist = {"SaveFrom": {"A"}, "LoadInto": {"B"}, "DenseOn": {"B"}, "EditOn": {"A", "B"}}
+    ha = [[{"id": "x", "lg": 1, "ch": 1, "co": 1}], [{"id": "y", "lg": 2, "ch": 2, "co": 1000}, {"id": "x", "lg": 1, "ch": 1, "co": 1}]]
+    hb = [_old("x"), _old("xy")]
+    design(ctx, "edit-histories", ha, hb, u, hist, 4 if ctx.tier == "quick" else 5)
     rng = random.Random(ctx.seed * 104729 + 9)
     n = 400 if ctx.tier == "quick" else 6000
     pool_a, pool_b = L.layouts(3), L.layouts(3, old=True)
     cases = [{"A": rng.choice(pool_a), "B": rng.choice(pool_b), "ops": random_ops(rng, rng.randint(2, MAXOPS)), "universe": u}
              for _ in range(n)]
+    rng2 = random.Random(ctx.seed * 7919 + 99)                # (separate stream: the sequences above stay what they were)
+    for c in cases:
+        c["pv"] = rng2.choice(PV_PAIRS)
+    full_a = [l for l in pool_a if l and all(x["lg"] and x["ch"] and x["co"] for x in l)]
+    cases += [{"A": rng2.choice(full_a if rng2.random() < 0.7 else pool_a), "B": rng2.choice(pool_b),
+               "ops": random_hist_ops(rng2, rng2.randint(4, 14)), "universe": u, "pv": rng2.choice(PV_PAIRS)}
+              for _ in range(200 if ctx.tier == "quick" else 3000)]
     traces = execute(ctx, cases)
     judge(ctx, "seeded-sequences", cases, traces, u)
     # composite clause: layout rebuilt from the saved PAGE XML + logits re-decodes / exports ALTO like the original
@@ -212,6 +281,8 @@ def run(ctx):
               for k in ("file", "bytes") for ver in (1, 2) for via in ("string", "ctor")]
     if ctx.tier == "quick":
         ccases = ccases[::3]
+    for n, c in enumerate(ccases):          # round 9: PAGE XML / logits written and read under every spelling of the path
+        c["pv"] = L.PATH_VARIANTS[n % len(L.PATH_VARIANTS)]
     L.set_workdir(ctx.workdir)
     ctraces = [L.run_composite(c) for c in ccases]
     judge(ctx, "composite", ccases, ctraces, cu)
